@@ -36,16 +36,15 @@ type c15Script struct {
 	listID string
 }
 
-// c15FollowUpAfterFailedURLChange: a failed set_url that changes the URL of an
-// enabled list restores URL, name, enabled flag and rule count but leaves the
-// checksum zeroed by unload() (reported; draft fix in
-// notes/fix-drafts/C15-setprops-checksum.patch).  While this is false the
-// checksum of such a call is not compared with its value before the call
-// (class failed-url-change-checksum-forgotten records it; the model predicts
-// the zero) and the refreshes that would follow in the history are left out
-// until the list is unloaded or re-pointed; set it to true once /repo restores
-// the checksum.
-const c15FollowUpAfterFailedURLChange = false
+// c15FollowUpAfterFailedURLChange: before its repair in /repo a failed set_url
+// that changed the URL of an enabled list restored URL, name, enabled flag and
+// rule count but left the checksum zeroed by unload().  With false the checksum
+// after such a call is not compared with its value before the call (class
+// failed-url-change-checksum-forgotten) and the refreshes that would follow in
+// the history are left out until the list is unloaded or re-pointed; true is
+// the full check: checksum compared, follow-up refreshes (same contents: not
+// rewritten; contents without rules: stored) generated.
+const c15FollowUpAfterFailedURLChange = true
 
 // delivered returns what the reader hands to the parser: ok=false if no
 // reader is obtained at all; otherwise data and whether it ends in an error.
